@@ -191,7 +191,15 @@ def search(ctx):
                 bad = True
         (suspicious if bad else rest).extend(g)
     ctx.extra["search_model_suspicious"] = len(suspicious)
-    return suspicious + rest[:6000]
+    # calls interleaved with declarations: declare, call, declare the other, the same call again (and once more as an
+    # rvalue / lvalue twin) - the shape a verdict carried over from an earlier call shows up in
+    seqs = []
+    for a, b in itertools.permutations(params, 2):
+        for x in args:
+            twin = ("R" if x[0] == "L" else "L") + x[1:] if "Literal" not in x else x
+            seqs.append("C16.seq\td~0~0:1:%s|c~0~%s~|d~0~1:1:%s|c~0~%s~|c~0~%s~" % (a, x, b, x, twin))
+    step = max(1, len(seqs) // 3000)
+    return suspicious + seqs[::step] + rest[:6000]
 
 
 SPEC = {
@@ -224,7 +232,7 @@ SPEC = {
         "output_arguments_checked", "callT_perm", "callT_accepted", "callT_refused", "out_vec1_is_refused",
         # calls interleaved with declarations: the verdict at a site is the resolution on the candidates visible there
         "site_verdict_is_resolution_of_visible", "visible_prefix_independent", "nothing_visible_is_unknown_name",
-        "template_body_site_resolved_at_first_instantiation", "observations_are_at_places",
+        "registry_is_transparent", "template_body_site_resolved_at_first_instantiation", "observations_are_at_places",
         # the source text of the transcribed routines, re-extracted each run
         "resolve_shape_as_modelled", "resolution_reads_no_call_history", "resolve_source_as_transcribed"]],
     "harness": "c16",
